@@ -1,13 +1,20 @@
 #!/bin/bash
 # usage: tools/seedtest.sh <patch.diff> <Cnn> [extra ./check args]
 # Applies a seeded change to /repo, runs the property's quick check, and always reverts the touched files.
+# The evidence file written by the seeded run describes a mutated tree, so the committed one is put back
+# afterwards (the seeded run's record is kept next to the log, outside /verif/evidence).
 patch="$1"; prop="$2"; shift 2
 files=$(git -C /repo apply --numstat "$patch" | awk '{print $3}')
 if ! git -C /repo apply --check "$patch"; then echo "SEEDTEST $prop: patch does not apply"; exit 3; fi
+keep=$(mktemp -d)
+[ -f /verif/evidence/$prop.json ] && cp /verif/evidence/$prop.json "$keep/$prop.json"
 git -C /repo apply "$patch"
 cd /verif && ./check "$prop" --tier quick "$@" > /tmp/seedtest_$prop.log 2>&1
 rc=$?
 for f in $files; do git -C /repo checkout -- "$f"; done
+[ -f /verif/evidence/$prop.json ] && mv /verif/evidence/$prop.json /tmp/seedtest_$prop.evidence.json
+[ -f "$keep/$prop.json" ] && mv "$keep/$prop.json" /verif/evidence/$prop.json
+rm -rf "$keep"
 echo "SEEDTEST $prop: exit=$rc"
 grep -E "VIOLATION|INCONCLUSIVE|\[failed|KNOWN-FINDING" /tmp/seedtest_$prop.log | head -8
 exit $rc
